@@ -48,7 +48,7 @@ func Globals() []any {
 	return out
 }
 
-func BarrierReset()                            { vrt.ResetRegions() }
+func BarrierReset()                                      { vrt.ResetRegions() }
 func BarrierAddRegion(p uintptr, size uintptr, tag byte) { vrt.AddRegion(unsafe.Pointer(p), size, tag) }
 func BarrierAddMap(id uintptr, tag byte)                 { vrt.AddMap(id, tag) }
 
@@ -56,10 +56,10 @@ func BarrierAddMap(id uintptr, tag byte)                 { vrt.AddMap(id, tag) }
 func BarrierHitsG() map[int]int { return vrt.HitsG }
 
 // SyncImported tells whether any instrumented package imports sync or sync/atomic.
-func SyncImported() bool { return vrt.SyncImported }
-func BarrierSeal()                             { vrt.SealRegions() }
-func BarrierEnable(on bool)                    { vrt.BarrierOn = on }
-func BarrierHits() map[int]int                 { return vrt.Hits }
-func BarrierProbes() int64                     { return vrt.Probes }
-func BarrierClearHits()                        { vrt.Hits = map[int]int{}; vrt.HitsG = map[int]int{} }
-func BarrierSizes() (int, int)                 { return vrt.NumRegions() }
+func SyncImported() bool       { return vrt.SyncImported }
+func BarrierSeal()             { vrt.SealRegions() }
+func BarrierEnable(on bool)    { vrt.BarrierOn = on }
+func BarrierHits() map[int]int { return vrt.Hits }
+func BarrierProbes() int64     { return vrt.Probes }
+func BarrierClearHits()        { vrt.Hits = map[int]int{}; vrt.HitsG = map[int]int{} }
+func BarrierSizes() (int, int) { return vrt.NumRegions() }
